@@ -102,9 +102,9 @@ def check_fragments(acc, text, frags, printer, ref, w, expect_source=None):
             ok = text[off:].startswith(name)
         elif fc == 'STR':
             t = toks.get(off)
-            ok = t is not None and t.type == 'str' and \
-                R3.strip_continuations(t.value) == \
-                R3.strip_continuations(core)
+            # the source begins with the fragment: a literal whose line
+            # continuations were removed is no longer the text found there
+            ok = t is not None and t.type == 'str' and t.value == core
         elif fc == 'commas':
             ok = text[off:off + 1] == ','
         elif fc == 'COMMENT':
@@ -244,8 +244,6 @@ def run(tier, rep):
         'the text with equal trees')
     rep.cov['bounds'] = {'printers': PRINTERS, 'tier': tier}
     rep.assumptions += [
-        'string fragments compared modulo stripped line continuations (the '
-        'documented minifier behaviour)',
         'a `;` fragment pointing at non-`;` text is exempt only while the '
         'number of such fragments does not exceed the number of semicolons '
         'R2 reports as inserted']
